@@ -175,6 +175,32 @@ def build(tier):
             except Exception as e:
                 ok, detail = None, dict(raised=repr(e)[:300])
             rep.add(core.decided(cid, PROP, ok, functions=("targets.numpy.Printer.make_constant",) + fns[:1], text="constant(%s) like a %s symbol materialises with the static dtype" % (label, t), detail=detail, claimed=ok is not None, meta=dict(kind="constant", types=[label, t], detail=detail)))
+    # constants created WITHOUT a reference operand (ctx.constant(1.5)): their static type is the unsized float / integer /
+    # complex, which Type.max lets adapt to the other operand; the printed literal must then have that dtype too
+    for kind in ("add", "subtract", "multiply", "divide"):
+        for t in NUM:
+            for label, value in (("float", 1.5), ("int", 2), ("complex", 1.5 + 0.5j)):
+                for order in ("x,c", "c,x"):
+                    ctx = fa.Context(paths=[])
+                    x = ctx.symbol("x", t).reference(ref_name="x")
+                    c = ctx.constant(value)
+                    cid = "C08/unsized-constant/%s/%s/%s/%s" % (kind, t, label, order)
+                    try:
+                        with warnings.catch_warnings(), numpy.errstate(all="ignore"):
+                            warnings.simplefilter("ignore")
+                            from functional_algorithms.expr import Expr
+
+                            node = Expr(ctx, kind, (x, c) if order == "x,c" else (c, x))
+                            graph = ctx.apply(ctx.symbol("f").reference(ref_name="f"), [x], node)
+                            st = node.get_type()
+                            fn = targets.numpy.as_function(graph, debug=0)
+                            r = fn(WITNESS[t])
+                        want = numpy.dtype(eval(targets.numpy.type_to_target[str(st)], dict(numpy=numpy)))
+                        ok = want == numpy.asarray(r).dtype
+                        detail = dict(static=str(st), runtime=str(numpy.asarray(r).dtype))
+                    except Exception as e:
+                        ok, detail = None, dict(raised=repr(e)[:300])
+                    rep.add(core.decided(cid, PROP, ok, functions=fns, text="%s of a %s symbol and an unsized %s constant (%s): static type == run-time dtype" % (kind, t, label, order), detail=detail, claimed=ok is not None, meta=dict(kind="unsized-constant", types=[kind, t, label, order], detail=detail)))
     # base case: argument casting at function entry (force_cast_arguments) gives every symbol its declared dtype
     for t in NUM:
         ctx = fa.Context(paths=[])
@@ -195,7 +221,7 @@ def build(tier):
     rep.under_contract("targets.base.PrinterBase.init_arguments", "arguments are cast to their declared dtype")
     # canary: float32 + float64 is float64 at run time (a static answer float32 would be caught)
     rep.add(core.decided("C08/canary/promotion-observable", PROP, (numpy.float32(1) + numpy.float64(1)).dtype != numpy.dtype("float32"), text="canary: run-time promotion differs from the narrower operand type", kind="canary"))
-    rep.replayers["C08/"] = lambda o: dict(replayed=True, witness_class="%s(%s)" % ((o.meta or {}).get("kind"), ",".join((o.meta or {}).get("types") or [])), detail=(o.meta or {}).get("detail"))
+    rep.replayers["C08/"] = lambda o: dict(replayed=True, witness_class="%s(%s)" % ((o.meta or {}).get("kind"), ",".join(((o.meta or {}).get("types") or [])[1:3] if (o.meta or {}).get("kind") == "unsized-constant" else ((o.meta or {}).get("types") or []))) + ((": static %s, run-time %s" % (((o.meta or {}).get("detail") or {}).get("static"), ((o.meta or {}).get("detail") or {}).get("runtime"))) if (o.meta or {}).get("kind") == "unsized-constant" else ""), detail=(o.meta or {}).get("detail"))
     return rep
 
 
